@@ -2,5 +2,6 @@ SPECIFICATION Spec
 CONSTANTS
   MaxLen = 3
   MaxTarget = 5
+  DeepTargets = {27, 28, 29}
 INVARIANTS ImplMeetsSpec Dump
 CHECK_DEADLOCK FALSE
